@@ -57,34 +57,31 @@ func checkCase(ctx *xplor.Ctx, p *lx.Prepared, net nk.Net, word []int, alpha []l
 		return "", "", "HARNESS " + err.Error()
 	}
 	desc := x.Describe()
-	// ---- producer side: a tx with a chain-id or nonce fault must not be executed
-	for i, o := range x.Out {
-		f := alpha[word[i]].Fault
-		switch f {
-		case "chainid", "noncelow":
-			if o.Status != "" {
-				return desc, "", fmt.Sprintf("tx %d (%s, fault %s) was executed by the producer with status %s", i, o.Gen, f, o.Status)
-			}
-		case "noncegap":
-			if o.Status != "" {
-				return desc, "F17", fmt.Sprintf("tx %d (%s) with nonce %d was executed (status %s) although the sender's nonce was %d: a nonce gap is accepted by block execution", i, o.Gen, o.Tx.GetBody().GetNonce(), o.Status, x.PreDump.NonceOf(nk.UserAddrs[senderIdx(o.Tx)]))
-			}
-		}
-	}
-	// ---- nonce sequence of the produced block
+	// ---- producer side: a tx bound to another chain, or whose nonce is not exactly the sender's
+	// current nonce + 1 at its position, must not be executed. The nonce that is due is tracked
+	// along the block (a letter's fault label is relative to optimistic nonce assignment: when an
+	// earlier tx of the same sender was rejected, "nonce-1" is in fact the due nonce).
 	next := map[int]uint64{}
 	for u := range p.Nonces {
 		next[u] = p.Nonces[u]
 	}
-	for _, tx := range x.Included {
-		u := senderIdx(tx)
-		if u < 0 {
+	for i, o := range x.Out {
+		f := alpha[word[i]].Fault
+		if f == "chainid" && o.Status != "" {
+			return desc, "", fmt.Sprintf("tx %d (%s) bound to another chain id was executed by the producer with status %s", i, o.Gen, o.Status)
+		}
+		u := senderIdx(o.Tx)
+		if u < 0 || o.Status == "" {
 			continue
 		}
-		if tx.GetBody().GetNonce() != next[u] {
-			return desc, "", fmt.Sprintf("block executes nonce %d of %s where %d is due", tx.GetBody().GetNonce(), nk.UserNames[u], next[u])
+		n := o.Tx.GetBody().GetNonce()
+		switch {
+		case n < next[u]:
+			return desc, "", fmt.Sprintf("tx %d (%s) with nonce %d was executed (status %s) although nonce %d of %s is due (replay)", i, o.Gen, n, o.Status, next[u], nk.UserNames[u])
+		case n > next[u]:
+			return desc, "F17", fmt.Sprintf("tx %d (%s) with nonce %d was executed (status %s) although nonce %d of %s is due: a nonce gap is accepted by block execution", i, o.Gen, n, o.Status, next[u], nk.UserNames[u])
 		}
-		next[u]++
+		next[u] = n + 1
 	}
 	for u := 0; u < 4; u++ {
 		if got := x.Dump.NonceOf(nk.UserAddrs[u]); got != next[u]-1 {
